@@ -7,7 +7,8 @@ from core import term as T
 
 ID = "C08"
 GEN = []
-RULE = ("case = (relation between servers and shares, insertion order of the sharemap dict and of its peer sets); "
+RULE = ("case = (relation between servers and shares, naming of the servers [20-byte ids as in Tahoe; integers 0..n-1 / 1..n "
+        "and floats that compare equal to share numbers; mixed int/str/bytes], insertion order of the sharemap dict and of its peer sets); "
         "distinct = distinct (canonical relation, insertion order); non-trivial = the relation has at least one edge "
         "(the flow network is built and at least one BFS runs); thorough enumerates every relation between <= 4 "
         "servers and <= 4 shares (74 963 relations)")
@@ -32,7 +33,7 @@ META = {
     "technique": "Coq proof of the algorithm (invariant + termination, all inputs) over an executable model + differential run of model vs implementation + independent Kuhn oracle",
     "design_ref": "8/C08, A.3",
     "trusted_base": ["harness/props/c08.py reads CPython's dict/set iteration order off shares_by_server() and hands it to the model"],
-    "assumptions": ["peer ids enter the model as N through an injective numbering (servers_of_happiness only hashes and compares them for equality)"],
+    "assumptions": ["peer ids enter the model as N through an injective numbering (servers_of_happiness only hashes and compares them for equality); the driver exercises the real function with 20-byte ids and with integer/float/mixed ids that compare equal to share numbers"],
 }
 
 IMPORTS = ["Model.Matching"]
@@ -87,15 +88,64 @@ def peer_id(i):
     return hashlib.sha1(b"server-%d" % i).digest()
 
 
+# servers_of_happiness(sharemap) is specified for arbitrary hashable server ids.  "sha1" is what
+# Tahoe passes (20-byte ids); the others name servers the way a simulator or a consumer of check
+# results would: small integers that COMPARE EQUAL to share numbers, floats equal to them, and
+# mixtures of integers, text and bytes.  Within one scheme the names are pairwise unequal.
+NAMINGS = ("sha1", "int", "int+1", "float", "mixed")
+
+
+def name_peer(naming, i):
+    if naming == "sha1":
+        return peer_id(i)
+    if naming == "int":
+        return i
+    if naming == "int+1":
+        return i + 1
+    if naming == "float":
+        return float(i)
+    if naming == "mixed":
+        return i if i % 2 == 0 else ("srv-%d" % i if i % 4 == 1 else b"srv-%d" % i)
+    raise ValueError(naming)
+
+
+class NeverReturns(Exception):
+    pass
+
+
+CALL_TIMEOUT = 4.0      # seconds; a call on a 62-vertex graph takes milliseconds
+MAX_HANGS = 3           # after this many calls that did not return, further calls of the run are skipped
+_hangs = [0]
+
+
+def call_with_timeout(fn, *args):
+    """fn(*args) in the main thread, abandoned with NeverReturns after CALL_TIMEOUT seconds."""
+    import signal
+
+    def _alarm(signum, frame):
+        raise NeverReturns()
+
+    try:
+        old = signal.signal(signal.SIGALRM, _alarm)
+    except ValueError:          # not the main thread: no guard available
+        return fn(*args)
+    signal.setitimer(signal.ITIMER_REAL, CALL_TIMEOUT)
+    try:
+        return fn(*args)
+    finally:
+        signal.setitimer(signal.ITIMER_REAL, 0)
+        signal.signal(signal.SIGALRM, old)
+
+
 # ---- building inputs -----------------------------------------------------------
-def build_sharemap(edges, empty_shares, key_order, peer_orders):
+def build_sharemap(edges, empty_shares, key_order, peer_orders, naming="sha1"):
     """edges: set of (server index, share number).  key_order: order in which share
     keys are inserted; peer_orders: share -> order of insertion of its peers."""
     sm = {}
     for sh in key_order:
         s = set()
         for p in peer_orders.get(sh, []):
-            s.add(peer_id(p))
+            s.add(name_peer(naming, p))
         sm[sh] = s
     assert set(sm) == {sh for (_, sh) in edges} | set(empty_shares)
     return sm
@@ -211,8 +261,10 @@ class Batch(object):
         self.terms, self.info = [], []
 
 
-def one_case(ctx, batch, edges, empty_shares, variants, r, kind, deep=False, cert=True, top=True):
-    """edges: iterable of (server index, share number)."""
+def one_case(ctx, batch, edges, empty_shares, variants, r, kind, deep=False, cert=True, top=True, naming="sha1", model=True):
+    """edges: iterable of (server index, share number).  naming: how the servers are named in the
+    sharemap handed to the real function (the relation, hence the expected value and the model's
+    input, is the same for every naming)."""
     from allmydata.util import happinessutil as U
     from allmydata.immutable import happiness_upload as H
     edges = sorted(set(edges))
@@ -220,49 +272,69 @@ def one_case(ctx, batch, edges, empty_shares, variants, r, kind, deep=False, cer
     for p, s in edges:
         adj.setdefault(p, []).append(s)
     want = kuhn(adj)
-    numbering = {peer_id(p): p for p in {p for p, _ in edges}}
+    numbering = {name_peer(naming, p): p for p in {p for p, _ in edges}}
+    if naming != "sha1":
+        kind = kind + "/ids:" + naming
+    def on(flag, v):     # flag: bool, or the collection of insertion-order variants it applies to
+        return flag if isinstance(flag, bool) else (v in flag)
+
     results = []
     for v in variants:
+        if _hangs[0] >= MAX_HANGS:
+            ctx.count("skipped-after-%d-calls-never-returned" % MAX_HANGS)
+            continue
         key_order, peer_orders = orders(edges, empty_shares, r, v)
-        sm = build_sharemap(edges, empty_shares, key_order, peer_orders)
+        sm = build_sharemap(edges, empty_shares, key_order, peer_orders, naming)
         case = {"edges": [list(e) for e in edges], "empty_shares": sorted(empty_shares), "key_order": key_order,
-                "peer_orders": {str(k): vv for k, vv in peer_orders.items()}}
+                "peer_orders": {str(k): vv for k, vv in peer_orders.items()}, "server_ids": naming,
+                "sharemap": repr({k: sorted(vv, key=repr) for k, vv in sm.items()})[:600]}
         rec = Recorder(U) if deep else None
         try:
             if rec:
                 with rec:
-                    got = U.servers_of_happiness(sm)
+                    got = call_with_timeout(U.servers_of_happiness, sm)
             else:
-                got = U.servers_of_happiness(sm)
+                got = call_with_timeout(U.servers_of_happiness, sm)
+        except NeverReturns:
+            _hangs[0] += 1
+            ctx.case((naming, tuple(edges), tuple(key_order)), kind=kind)
+            ctx.oracle_fail("soh-never-returns", "servers_of_happiness did not return within %.0f s (a call takes milliseconds); "
+                            "the maximum matching of the relation has size %d" % (CALL_TIMEOUT, want), case=case,
+                            expected=want, observed="no result after %.0f s" % CALL_TIMEOUT)
+            continue
         except Exception as e:  # the function is total on well-typed input
-            ctx.case((tuple(edges), tuple(key_order)), kind=kind)
+            ctx.case((naming, tuple(edges), tuple(key_order)), kind=kind)
             ctx.oracle_fail("soh-raises", "servers_of_happiness raised %s: %s" % (type(e).__name__, e), case=case,
                             expected=want, observed=type(e).__name__)
             continue
-        ctx.case((tuple(edges), tuple(key_order), tuple(sorted((k, tuple(x)) for k, x in peer_orders.items()))) if edges else None, kind=kind)
+        ctx.case((naming, tuple(edges), tuple(key_order), tuple(sorted((k, tuple(x)) for k, x in peer_orders.items()))) if edges else None, kind=kind)
         results.append(got)
         if got != want:
             ctx.oracle_fail("soh-not-maximum-matching",
                             "servers_of_happiness = %r but a maximum matching of the server/share relation has size %d" % (got, want),
                             case=case, expected=want, observed=got)
-        if type(got) is not int:
+        if type(got) is not int or not on(model, v):
             continue
         # what the implementation iterates: the dict/sets built by the real shares_by_server
         sbs = U.shares_by_server(sm)
-        rel = sorted((numbering[p], s) for p, shs in sbs.items() for s in shs)
+        try:
+            rel = sorted((numbering[p], s) for p, shs in sbs.items() for s in shs)
+        except KeyError:
+            rel = None
         if rel != edges:
             ctx.oracle_fail("shares-by-server-wrong-relation", "shares_by_server does not transpose the sharemap", case=case,
                             expected=edges, observed=rel)
+            continue
         svm = [(numbering[p], list(shs)) for p, shs in sbs.items()]
         if sm:
             a = "chk_soh %s %s" % (t_svm(svm), T.Z(got))
-            if cert:
+            if on(cert, v):
                 # cross-check: the Koenig certificate read off the model's final state is accepted
                 b = "soh_certified %s" % t_svm(svm)
                 batch.add("(%s) && (%s)" % (a, b), "servers_of_happiness-vs-model", "soh-model-vs-impl", case, alt=[a, b])
             else:
                 batch.add(a, "servers_of_happiness-vs-model", "soh-model-vs-impl", case)
-        if top or not sm:
+        if on(top, v) or not sm:
             # top-level model (its own shares_by_server, insertion order)
             smt = T.lst([T.pair(T.N(sh), T.lst([T.N(p) for p in peer_orders.get(sh, [])])) for sh in key_order])
             batch.add("chk_top %s %s" % (smt, T.Z(got)), "servers_of_happiness-vs-model", "soh-top-model-vs-impl", case)
@@ -350,12 +422,16 @@ def run(ctx):
     ctx.correspondence("certificate-accepted-on-every-case")
     ctx.correspondence("graph-helpers-vs-model")
     batch = Batch(ctx)
+    _hangs[0] = 0
     r0 = ctx.rng("orders")
 
     # fixed corpus: the docstring example, the empty map, shares nobody holds
     doc = [(1, 1), (1, 2), (1, 3), (1, 4), (2, 6), (3, 3), (4, 4), (5, 2)]
     w = one_case(ctx, batch, doc, set(), [0, 1, 2], r0, "docstring", deep=True)
     ctx.sample({"edges": doc, "happiness": w})
+    for nm in NAMINGS[1:]:
+        one_case(ctx, batch, doc, set(), [0, 2], r0, "docstring", naming=nm, deep=(nm == "int"))
+    one_case(ctx, batch, [(0, 0)], set(), [0], r0, "one-edge", naming="int", deep=True)
     one_case(ctx, batch, [], set(), [0], r0, "empty")
     one_case(ctx, batch, [], {7, 9}, [0, 1], r0, "only-empty-peer-sets", deep=True)
 
@@ -368,21 +444,36 @@ def run(ctx):
             # model; certificate cross-check and the sharemap-level model on every 3rd relation
             one_case(ctx, batch, E, set(), [0, 2] if n % 5 else [0, 1, 2, 3], ctx.rng("small", n), "exhaustive-%dx%d" % (ns, nh),
                      deep=deep, cert=(n % 3 == 0), top=(n % 3 == 0))
+            # the same relation with servers named 0..n-1 (ids equal to share numbers) and, in rotation, the other schemes
+            one_case(ctx, batch, E, set(), [0], ctx.rng("small-int", n), "exhaustive-%dx%d" % (ns, nh), naming="int",
+                     model=(n % 6 == 0), cert=False, top=False)
+            if n % 4 == 0:
+                one_case(ctx, batch, E, set(), [2], ctx.rng("small-alt", n), "exhaustive-%dx%d" % (ns, nh),
+                         naming=NAMINGS[2 + (n // 4) % 3], model=(n % 24 == 0), cert=False, top=False)
             n += 1
             if len(batch.terms) >= 40000:
                 batch.flush("c08small")
-        ctx.note("exhaustive: %d relations between <= 4 servers and <= 4 shares" % n)
+        ctx.note("exhaustive: %d relations between <= 4 servers and <= 4 shares, each also with integer server ids 0..n-1" % n)
     else:
         # quick: all relations <= 3x3 (one order + one shuffled) and a seeded sample of 4x4
         n = 0
         for ns, nh, E in all_small(3, 3):
-            one_case(ctx, batch, E, set(), [0, 2], ctx.rng("small", n), "exhaustive-%dx%d" % (ns, nh), deep=(n % 41 == 0))
+            # the real function under both orders against the oracle; model on order 0 (with the certificate
+            # cross-check), on the shuffled order for every 3rd relation, sharemap-level model for every 3rd
+            one_case(ctx, batch, E, set(), [0, 2], ctx.rng("small", n), "exhaustive-%dx%d" % (ns, nh), deep=(n % 41 == 0),
+                     model=[0, 2] if n % 3 == 0 else [0], cert=[0], top=[0] if n % 3 == 1 else [])
+            one_case(ctx, batch, E, set(), [0], ctx.rng("small-int", n), "exhaustive-%dx%d" % (ns, nh), naming="int",
+                     model=(n % 4 == 0), cert=False, top=False, deep=(n % 164 == 0))
             n += 1
         cells = [(p, s) for p in range(4) for s in range(4)]
-        for i in range(ctx.n(300)):
+        for i in range(ctx.n(200, 3000)):
             r = ctx.rng("s44", i)
             bits = r.getrandbits(16)
-            one_case(ctx, batch, [c for j, c in enumerate(cells) if bits >> j & 1], set(), [0, 1, 2], r, "sample-4x4", deep=(i % 29 == 0))
+            E44 = [c for j, c in enumerate(cells) if bits >> j & 1]
+            one_case(ctx, batch, E44, set(), [0, 1, 2], r, "sample-4x4", deep=(i % 29 == 0),
+                     model=[0, 1 + i % 2], cert=[0], top=[0] if i % 3 == 0 else [])
+            one_case(ctx, batch, E44, set(), [0, 2], ctx.rng("s44-alt", i), "sample-4x4", naming=NAMINGS[1 + i % 4],
+                     model=(i % 3 == 0), cert=False, top=False)
     batch.flush("c08small")
 
     # seeded random up to 30 x 30, several insertion orders
@@ -390,7 +481,13 @@ def run(ctx):
         r = ctx.rng("rand", i)
         E, empties, style = random_relation(r)
         small = len({p for p, _ in E}) + len({s for _, s in E}) <= 10
-        w = one_case(ctx, batch, E, empties, [0, 1, 2, 3], r, "random-" + style, deep=small and i % 3 == 0)
+        quick = ctx.tier == "quick" and not ctx.search
+        w = one_case(ctx, batch, E, empties, [0, 1, 2, 3], r, "random-" + style, deep=small and i % 3 == 0,
+                     model=[0, 2 + i % 2] if quick else True, cert=[0] if quick else True, top=[0] if (i % 2 == 0 or not quick) else [])
+        # same relation, other server ids (the share numbers of a random relation are 0..29 or remapped, the
+        # integer server ids 0..29 overlap them)
+        one_case(ctx, batch, E, empties, [0, 2], ctx.rng("rand-alt", i), "random-" + style, naming=NAMINGS[1 + i % 4],
+                 model=[2] if (small or i % 4 == 0) else False, cert=False, top=False)
         if i < 2:
             ctx.sample({"edges": E[:40], "happiness": w, "style": style})
         if len(batch.terms) >= 2000:
@@ -454,16 +551,22 @@ def replay(ctx, rec):
     key_order = case.get("key_order") or sorted({s for _, s in edges})
     peer_orders = {int(k): v for k, v in (case.get("peer_orders") or {}).items()} or \
         {sh: sorted(p for p, s in edges if s == sh) for sh in key_order}
-    sm = build_sharemap(edges, set(case.get("empty_shares") or []), key_order, peer_orders)
+    naming = case.get("server_ids") or "sha1"
+    sm = build_sharemap(edges, set(case.get("empty_shares") or []), key_order, peer_orders, naming)
     adj = {}
     for p, s in edges:
         adj.setdefault(p, []).append(s)
     want = kuhn(adj)
-    got = U.servers_of_happiness(sm)
+    try:
+        got = call_with_timeout(U.servers_of_happiness, sm)
+    except NeverReturns:
+        ctx.oracle_fail("soh-never-returns", "servers_of_happiness did not return within %.0f s" % CALL_TIMEOUT, case=case,
+                        expected=want, observed="no result")
+        return {"implementation": "never returns", "maximum_matching": want, "sharemap": repr(sm)[:600]}
     if got != want:
         ctx.oracle_fail("soh-not-maximum-matching", "servers_of_happiness = %r, maximum matching = %d" % (got, want), case=case,
                         expected=want, observed=got)
-    numbering = {peer_id(p): p for p, _ in edges}
+    numbering = {name_peer(naming, p): p for p, _ in edges}
     svm = [(numbering[p], list(shs)) for p, shs in U.shares_by_server(sm).items()]
     model = ctx.coq_eval(IMPORTS, "(soh_servermap %s, soh_certificate %s)" % (t_svm(svm), t_svm(svm))) if svm else "n/a"
     return {"implementation": got, "maximum_matching": want, "model": model}
